@@ -80,12 +80,13 @@ WELL_KNOWN = [RDF + "type", RDFS + "label", RDFS + "Class", RDF + "value", OWL +
 
 CHAR_POOL = (
     list("abcxyz019 ") + ['"', '"', "'", "\\", "\\", "\n", "\n", "\r", "\t", "\b", "\f", "\v", "\x00", "\x01", "\x1f",
-                          "\x7f", "\x85", "\xa0", "\u2028", "<", ">", "&", "]", "{", "}", "#", "@", "^", ".", ",", ";",
+                          "\x7f", "\x85", "\x85", "\xa0", "\u2028", "\u2028", "\u2029", "\x1c", "\x1d", "\x1e", "<", ">", "&", "]", "{", "}", "#", "@", "^", ".", ",", ";",
                           ":", "%", "_", "-", "\xe9", "\xfc", "\xdf", "\u03a9", "\u540d", "\u0301", "\u0308", "\u200d",
                           "\ufeff", "\ufffe", "\uffff", "\ud7ff", "\ue000", "\ufffd", "\U0001f600", "\U00010000",
                           "\U0010ffff", "e", "E", "+", "u", "U", "n", "r", "t"]
 )
-TEXT_FIXED = ["", " ", "0", "false", '"', '""', '"""', '""""', "\\", '\\"', '"\\', "\n", "\r", "\r\n", "a\nb", 'a\n"',
+# str.splitlines() boundaries that N-Triples / Turtle leave unescaped inside a string: VT, FF, FS, GS, RS, NEL, LS, PS
+TEXT_FIXED = ["first\u2028second", "a\u2029b", "a\x0cb", "x\x0by", "a\x1cb\x1dc\x1ed", "", " ", "0", "false", '"', '""', '"""', '""""', "\\", '\\"', '"\\', "\n", "\r", "\r\n", "a\nb", 'a\n"',
               'a\n""', 'a\n"""', 'x\n\\"', 'x\n\\', '\n"""a"""', "a\\nb", "\\u0041", "\\U00000041", "a\rb", "a<b>\rc",
               "<a>&amp;</a>", "]]>", "<x>]]></x>", "tab\there", " lead", "trail ", "a  b", "\x00", "a\x0bb", "\ud7ff",
               "'''", "it's", "@en", "^^", "\U0001f600", "e\u0301", "\ufeffbom", "{}", "a\xa0b", "a\x85b", "\\\\", '\\\\"',
